@@ -425,12 +425,16 @@ Section Digest.
       end
     end.
 
+  (* unquote(uri_path) != req.path or uri_query != req.query *)
+  Definition uri_mismatch (d : dict) (e : env) : bool :=
+    let pq := split_uri (dgetd k_uri d) in
+    negb (lz_eqb (Unq (fst pq)) (req_path e)) ||
+    negb (lz_eqb (snd pq) (req_query e)).
+
   Definition check_credentials (d : dict) (e : env) : bool :=
     if negb (opt_eqb (dget k_algorithm d) (c_algorithm e)) then false else
     if negb (opt_eqb (dget k_opaque d) (Ho (r_host e))) then false else
-    if (let (p, q) := split_uri (dgetd k_uri d) in
-        negb (lz_eqb (Unq p) (req_path e)) || negb (lz_eqb q (req_query e)))
-    then false else
+    if uri_mismatch d e then false else
     if nonempty (c_qop e) && negb (opt_eqb (dget k_qop d) (c_qop e))
     then false else
     if negb (opt_eqb (dget k_realm d) (c_realm e)) then false else
@@ -552,3 +556,7 @@ Definition run_parse (raw : str) : V :=
 Definition run_parse_fields (raw : str) : V :=
   enc_fields (parse_authorization unquote raw).
 Definition run_unquote (s : str) : V := VS (unquote s).
+
+(* case-file compression only: a derived header as an edit of a base text *)
+Definition splice (base : str) (i n : Z) (repl : str) : str :=
+  firstn (Z.to_nat i) base ++ repl ++ skipn (Z.to_nat (i + n)) base.
